@@ -43,11 +43,11 @@ func registerEngine(sp engPropSpec) {
 }
 
 var valAll = map[string]int{"u": 10, "s0": 4, "s1": 4, "s2": 3, "s3": 2, "s4": 2, "s5": 2, "s6": 1, "s7": 3,
-	"some": 3, "arr": 3, "map": 2, "cmap": 1, "barr": 2}
+	"some": 3, "arr": 3, "map": 2, "cmap": 1, "barr": 2, "bmap": 1}
 var valNoComposite = map[string]int{"u": 10, "s0": 4, "s1": 4, "s2": 3, "s3": 2, "s4": 2, "s5": 2, "s6": 1, "s7": 3,
 	"some": 3, "arr": 3, "map": 3}
 var valNested = map[string]int{"u": 6, "s0": 2, "s1": 3, "s2": 2, "s3": 1, "s4": 1, "s5": 1, "s7": 2,
-	"some": 4, "arr": 8, "map": 6, "cmap": 2, "barr": 2}
+	"some": 4, "arr": 8, "map": 6, "cmap": 2, "barr": 2, "bmap": 1}
 
 func scale(g *GenCfg) *GenCfg {
 	if g.NondetPct == 0 {
